@@ -112,7 +112,8 @@ def word_text(opt, wd, paths):
     if wd[0] == "hosts":
         return expr_text(wd[1])
     if wd[0] == "excl":
-        return (b"-" if opt == "w" else b"") + expr_text(wd[1])
+        # inside -w every term needs its own '-'; inside -x every word of the argument is an exclusion
+        return b",".join((b"-" if opt == "w" else b"") + term_text(t) for t in wd[1])
     if wd[0] == "file":
         return (b"-" if (wd[1] and opt == "w") else b"") + b"^" + paths[wd[2]]
     pat = wd[2] + (b"/" if wd[3] else b"")
@@ -187,7 +188,7 @@ def twins_of(r, name):
 
 REGEX_TEMPLATES = [b"1$", b"[0-9]$", b"^f", b"^foo", b"o[0-9]", b"1|3", b"-ib", b"^(foo|bar)[12]$", b".", b"x*", b"[0-9]+$",
                    b"0[0-9]", b"^[a-z]+[0-9]$", b"r", b"2", b"[13579]$", b"^n", b"ib$", b"1-", b"^$", b"oo+1", b"(1|2)0?$"]
-BAD_REGEX = [b"(", b"[a", b"*a("]
+BAD_REGEX = [b"(", b"a)b(", b"*a("]   # no unbalanced [ : list_split would glue the following words to it
 
 
 def g_exclusion_expr(r, names):
